@@ -1,3 +1,4 @@
+import Desert.Lemmas.TotalDec
 import Desert.Lemmas.Misc
 /-!
 # C06 — the decoder never invents content
@@ -114,5 +115,24 @@ theorem array_exact_known (fuel : Nat) (d : DProg Val) (L : Nat) (n : Int) (hn :
     | ok r => obtain ⟨vs2, s2⟩ := r; rw [hk] at h; simp [runAbs] at h
     | err e => rw [hk] at h; simp at h
     | panic w => rw [hk] at h; simp at h
+
+
+/-- with a decodable environment the alternative "abstract panic" of `decode_honest_top` does not
+exist (`decodeAbs_total`): whatever the faithful context accepts, the reference decodes to the same value -/
+theorem decode_honest_total (env : Env) (henv : envDecOKb env = true) (ty : Ty) (hty : tyOKb env ty = true)
+    (b : Bytes) (v : Val) (c' : Ctx) (h : decodeTop env ty b = .ok (v, c')) :
+    ∃ s', decodeAbs env ty b = .ok (v, s') := by
+  rcases decode_honest_top env ty b v c' h with h | ⟨w, hw⟩
+  · exact h
+  · exact absurd hw (decodeAbs_total env henv ty hty b w)
+
+/-- … and errors agree exactly -/
+theorem errors_agree_total (env : Env) (henv : envDecOKb env = true) (ty : Ty) (hty : tyOKb env ty = true)
+    (b : Bytes) (e : Err) (h : decodeTop env ty b = .err e) : decodeAbs env ty b = .err e := by
+  unfold decodeTop at h
+  rcases errors_agree _ _ (Ctx.new_Inv b) e h with h' | ⟨w, hw⟩
+  · rw [absCtx_new] at h'; exact h'
+  · rw [absCtx_new] at hw; exact absurd hw (decodeAbs_total env henv ty hty b w)
+
 
 end C06
